@@ -89,6 +89,7 @@ struct ZebraModel {
 inline Outcome runSmootherCase(const KV& c, bool extrapolated)
 {
     Outcome o;
+    setVectorScaleExp(c, o);
     ProblemSpec p      = ProblemSpec::get(c);
     const int threads  = (int)c.getI("threads");
     const bool carryBC = c.getI("carry_bc", 0) != 0;
@@ -409,6 +410,7 @@ inline KV genSmootherCase(bool extrapolated)
     c.putI("cache_geom", rbool());
     c.putI("x_kind", rweighted({4, 3, 1, 1, 1, 1}));
     c.putU("x_seed", rseed());
+    c.putI("vec_scale_exp", rpick({0, 0, 0, 0, 0, 0, -300, -100, 100, 300}));
     c.putI("f_kind", rweighted({4, 3, 1, 1, 1, 1}));
     c.putU("f_seed", rseed());
     c.putI("carry_bc", rbool());
